@@ -50,7 +50,13 @@ class BidsFileGroup:
         for bids_obj in self.datafile_dict.values():
             sidecar_list = self.get_sidecars_from_path(bids_obj)
             if sidecar_list:
-                bids_obj.sidecar = self.sidecar_dict[sidecar_list[-1]]
+                last_sidecar = self.sidecar_dict[sidecar_list[-1]]
+                if self.get_sidecars_from_path(last_sidecar) != sidecar_list:
+                    # The deepest sidecar was merged along its own inheritance chain, which lacks the sidecars
+                    # that apply to this data file only (more entities): merge along the data file's chain.
+                    last_sidecar = BidsSidecarFile(last_sidecar.file_path)
+                    last_sidecar.set_contents(content_info=sidecar_list)
+                bids_obj.sidecar = last_sidecar
 
     def get_sidecars_from_path(self, obj):
         """ Return applicable sidecars for the object.
